@@ -74,10 +74,54 @@ def _model(kind: str, opset: int) -> onnx.ModelProto:
 
 TABLE = [(k, o) for o in OPSETS for k in KINDS]
 MODELS = [_model(k, o).SerializeToString() for k, o in TABLE]
-TRANSFORMS = ["optimize", "convert18", "proto2python"]
+TRANSFORMS = ["optimize", "convert18", "proto2python", "script"]
+
+# script sources for the converter: the same small vocabulary of names (scale, k, t, c) occurs as a Python constant bound to a
+# local in some scripts and as a tensor parameter / intermediate in others; element types differ between scripts
+SCRIPT_SRCS = [
+    ("const_scale", "def f(x: FLOAT[3]) -> FLOAT[3]:\n    scale = 0.5\n    return x * scale\n"),
+    ("tensor_scale_double", "def f(x: DOUBLE[3], scale: DOUBLE[3]) -> DOUBLE[3]:\n    return x * scale + 1.0\n"),
+    ("tensor_scale_float", "def f(x: FLOAT[3], scale: FLOAT[3]) -> FLOAT[3]:\n    t = x * scale\n    return t + 2.0\n"),
+    ("const_k_int", "def f(x: INT64[3]) -> INT64[3]:\n    k = 2\n    return x * k + 1\n"),
+    ("tensor_k_int", "def f(x: FLOAT[3], k: INT64[3]) -> FLOAT[3]:\n    return x + op.Cast(k + 1, to=1)\n"),
+    ("const_t_c", "def f(x: FLOAT[3]) -> FLOAT[3]:\n    t = 3.0\n    c = 1\n    return x * t + op.Cast(c, to=1)\n"),
+    ("tensor_t_c_if", "def f(x: FLOAT[3], c: BOOL) -> FLOAT[3]:\n    t = x + 1.0\n    if c:\n        t = t * 2.0\n    else:\n        t = t - 1.0\n    return t\n"),
+    ("tensor_t_loop", "def f(x: FLOAT[3], k: INT64) -> FLOAT[3]:\n    t = x\n    for i in range(k):\n        t = t * 0.5 + 1.0\n    return t\n"),
+    ("half_scale", "def f(x: FLOAT16[3], scale: FLOAT16[3]) -> FLOAT16[3]:\n    return x * scale + 1.0\n"),
+    ("nested_fn", "def g(a: FLOAT[3], scale: FLOAT[3]) -> FLOAT[3]:\n    return a * scale\n\n@script(default_opset=op)\ndef f(x: FLOAT[3]) -> FLOAT[3]:\n    k = 4.0\n    return g(x, x) * k\n"),
+]
+_SCRIPT_HEADER = ("from onnxscript import script, FLOAT, DOUBLE, FLOAT16, INT64, BOOL\nfrom onnxscript import opset18 as op\n\n"
+                  "@script(default_opset=op)\n")
+_COUNTER = [0]
 
 
-def transform(name: str, mb: bytes) -> bytes:
+def table(t: str):
+    return SCRIPT_SRCS if t == "script" else MODELS
+
+
+def transform(name: str, mb) -> bytes:
+    if name == "script":
+        # decorate a fresh copy of the source in this process (the decorator needs a real file) and serialise its model
+        import importlib.util
+        import tempfile
+        _COUNTER[0] += 1
+        d = tempfile.mkdtemp(prefix="vp_c14s_")
+        try:
+            modname = f"vp_c14s_{os.getpid()}_{_COUNTER[0]}"
+            path = os.path.join(d, modname + ".py")
+            with open(path, "w") as fh:
+                fh.write(_SCRIPT_HEADER + mb[1])
+            spec = importlib.util.spec_from_file_location(modname, path)
+            mod = importlib.util.module_from_spec(spec)
+            sys.modules[modname] = mod
+            try:
+                spec.loader.exec_module(mod)
+                return mod.f.to_model_proto().SerializeToString(deterministic=True)
+            finally:
+                sys.modules.pop(modname, None)
+        finally:
+            import shutil
+            shutil.rmtree(d, ignore_errors=True)
     m = onnx.load_from_string(mb)
     if name == "optimize":
         from onnxscript import optimizer
@@ -111,7 +155,7 @@ def compute_baselines(jobs=16) -> dict:
                             timeout=300, cwd=os.path.dirname(os.path.dirname(os.path.dirname(os.path.abspath(__file__)))))
         out = cp.stdout.strip().splitlines()
         return key, (out[-1] if cp.returncode == 0 and out else f"baseline failed rc={cp.returncode} {cp.stderr[-300:]}")
-    keys = [(t, i) for t in TRANSFORMS for i in range(len(MODELS))]
+    keys = [(t, i) for t in TRANSFORMS for i in range(len(table(t)))]
     with cf.ThreadPoolExecutor(max_workers=jobs) as ex:
         return {f"{t}:{i}": d for (t, i), d in ex.map(one, keys)}
 
@@ -136,12 +180,13 @@ LAST_OBSERVED = None
 def run_history(ti: int, hist, target: int):
     global LAST_OBSERVED
     t = TRANSFORMS[ti]
+    tb = table(t)
     for h in hist:
-        _safe(t, MODELS[h])
-    got = _safe(t, MODELS[target])
+        _safe(t, tb[h])
+    got = _safe(t, tb[target])
     want = baselines()[f"{t}:{target}"]
-    LAST_OBSERVED = {"transformation": t, "history": [f"{TABLE[h][0]}@{TABLE[h][1]}" for h in hist],
-                     "target": f"{TABLE[target][0]}@{TABLE[target][1]}", "fresh": want, "after_history": got}
+    label = (lambda i: SCRIPT_SRCS[i][0]) if t == "script" else (lambda i: f"{TABLE[i][0]}@{TABLE[i][1]}")
+    LAST_OBSERVED = {"transformation": t, "history": [label(h) for h in hist], "target": label(target), "fresh": want, "after_history": got}
     return got == want
 
 
@@ -153,7 +198,7 @@ def _pick(v, lo, hi):
 
 
 def history_prop(ti: int, hist: List[int], target: int) -> bool:
-    n = len(MODELS)
+    n = len(table(TRANSFORMS[ti]))
     hs = [_pick(h, 0, n - 1) for h in hist]
     tg = _pick(target, 0, n - 1)
     from crosshair.tracers import NoTracing
@@ -162,7 +207,7 @@ def history_prop(ti: int, hist: List[int], target: int) -> bool:
 
 
 def _ob(ti, hlen, first_opset=None, tiers=("quick", "thorough")):
-    n = len(MODELS)
+    n = len(table(TRANSFORMS[ti]))
     pres = [f"len(hist) == {hlen}", f"all(0 <= h < {n} for h in hist)", f"0 <= target < {n}"]
     oid = f"c14.history.{TRANSFORMS[ti]}.h{hlen}"
     if first_opset is not None:
@@ -174,18 +219,21 @@ def _ob(ti, hlen, first_opset=None, tiers=("quick", "thorough")):
         "timeout": 400, "timeout_thorough": 3000, "tiers": tiers,
         "functions": {"optimize": ["onnxscript.optimizer:optimize", "onnxscript.optimizer._constant_folding:ReferenceEvaluator"],
                       "convert18": ["onnxscript.version_converter:convert_version"],
-                      "proto2python": ["onnxscript.backend.onnx_export:export2python"]}[TRANSFORMS[ti]],
-        "bounds": f"history of {hlen} model(s) and a target from a {n}-model table ({len(KINDS)} operator kinds x opsets {OPSETS}), all symbolic; "
-                  "fresh-process baselines",
+                      "proto2python": ["onnxscript.backend.onnx_export:export2python"],
+                      "script": ["onnxscript._internal.converter:Converter", "onnxscript._internal.main:script"]}[TRANSFORMS[ti]],
+        "bounds": (f"history of {hlen} script(s) and a target from a table of {n} script sources sharing a vocabulary of names (constants in "
+                   "some, tensors in others), all symbolic; fresh-process baselines") if TRANSFORMS[ti] == "script" else
+                  (f"history of {hlen} model(s) and a target from a {n}-model table ({len(KINDS)} operator kinds x opsets {OPSETS}), all symbolic; "
+                   "fresh-process baselines"),
         "stubs": [],
     }
 
 
 OBLIGATIONS = (
-    [_ob(0, 1, fo) for fo in range(len(OPSETS))] + [_ob(1, 1), _ob(2, 1)]
+    [_ob(0, 1, fo) for fo in range(len(OPSETS))] + [_ob(1, 1), _ob(2, 1), _ob(3, 1), _ob(3, 2)]
     + [_ob(0, 2, fo, tiers=("thorough",)) for fo in range(len(OPSETS))]
 )
 
 
 if __name__ == "__main__":
-    print(_safe(sys.argv[1], MODELS[int(sys.argv[2])]))
+    print(_safe(sys.argv[1], table(sys.argv[1])[int(sys.argv[2])]))
